@@ -6,14 +6,14 @@
 
    Variants.  ts_mode  = TextOnDicts (the code: timestamp text kept in a
    dictionary is compared as text) | InstantOnDicts (repaired reading).
-   opt_mode = OptAnyValue (the code: a shortcut is derived from any value of a
-   type / id filter) | OptStringsOnly (proposed fix: only from strings / lists
-   of strings).  The main theorem holds for every filter list in
+   opt_mode = OptAnyValue (the code before fix 4d5628c: a shortcut is derived
+   from any value of a type / id filter) | OptStringsOnly (the code since: only
+   from strings / lists of strings).  The main theorem holds for every filter list in
    OptStringsOnly and under tyid_wf in OptAnyValue; the *_refuted theorems are
    the witnesses outside tyid_wf.                                          *)
 From Coq Require Import ZArith List String Permutation.
 From V Require Import Base.UString Model.Filters Spec.FilterSpec
-  Proofs.FiltersBasics Proofs.FiltersOpt Proofs.FiltersFs Proofs.FiltersLaws Proofs.FiltersInv.
+  Proofs.FiltersBasics Proofs.FiltersOpt Proofs.FiltersFs Proofs.FiltersLaws Proofs.FiltersInv Proofs.FiltersAll.
 Import ListNotations.
 
 (* ---- the optimiser never changes the result (DESIGN Appendix A.2) ---- *)
@@ -74,7 +74,26 @@ Theorem opt_sound_complete_after_any_history : forall mode om objs fl r,
 Proof. exact built_tree_opt_sound. Qed.
 Print Assumptions opt_sound_complete_after_any_history.
 
-(* the code as it is, outside tyid_wf: a string given to `in`, a number given to `=` *)
+(* Inv (iii): when id directories are named <type>--<uuid> and files end in .json, the scan sees
+   every file content of the tree; the sink keeps it so for objects with such ids *)
+Theorem scan_sees_everything : forall t, all_visible t -> Permutation (scan t) (all_contents t).
+Proof. exact scan_sees_everything_lemma. Qed.
+Print Assumptions scan_sees_everything.
+
+Theorem sink_keeps_everything_visible : forall objs t,
+  all_visible t -> Forall obj_vis objs -> all_visible (fs_build t objs).
+Proof. exact fs_build_visible_lemma. Qed.
+Print Assumptions sink_keeps_everything_visible.
+
+(* so: the optimised query over a tree built by the sink = naive evaluation over ALL stored contents *)
+Theorem query_over_all_stored : forall mode om objs fl r,
+  Forall (obj_wf mode) objs -> Forall obj_vis objs -> tyid_wf om fl ->
+  apply_filters mode fl (all_contents (fs_build [] objs)) = Ok r ->
+  exists r', fs_search mode om (fs_build [] objs) fl = Ok r' /\ Permutation r r'.
+Proof. exact query_over_all_stored_lemma. Qed.
+Print Assumptions query_over_all_stored.
+
+(* the code before fix 4d5628c (OptAnyValue), outside tyid_wf: a string given to `in`, a number given to `=` *)
 Theorem opt_in_string_refuted : forall mode,
   Inv mode w_tree /\
   naive mode [F "type" OIn (vs "identity,x-foo")] w_tree = Ok [w_obj] /\
